@@ -501,7 +501,7 @@ func splitNonEscaped(s string, sep byte) []string {
 // getMatch parses the passed url and tries to match it against the route segments and determine the parameter positions
 func (parser *routeParser) getMatch(detectionPath, path string, params *[maxParams]string, partialCheck bool) bool { //nolint:revive // Accepting a bool param is fine here
 	var i, paramsIterator, partLen int
-	for _, segment := range parser.segs {
+	for segIndex, segment := range parser.segs {
 		partLen = len(detectionPath)
 		// check const segment
 		if !segment.IsParam {
@@ -514,8 +514,10 @@ func (parser *routeParser) getMatch(detectionPath, path string, params *[maxPara
 				return false
 			}
 		} else {
-			// determine parameter length
-			i = findParamLen(detectionPath, segment)
+			// determine parameter length; the parameter search looks for the following constant without its trailing
+			// slash where that slash is optional
+			slashOptional := segIndex+1 < len(parser.segs) && parser.segs[segIndex+1].HasOptionalSlash && len(parser.segs[segIndex+1].Const) > 1
+			i = findParamLen(detectionPath, segment, slashOptional)
 			if !segment.IsOptional && i == 0 {
 				return false
 			}
@@ -548,7 +550,9 @@ func (parser *routeParser) getMatch(detectionPath, path string, params *[maxPara
 
 // findParamLen for the expressjs wildcard behavior (right to left greedy)
 // look at the other segments and take what is left for the wildcard from right to left
-func findParamLen(s string, segment *routeSegment) int {
+// slashOptional: the compare part is a constant without its optional trailing slash; it only stands for that constant
+// at the end of the path or in front of a slash ("/ab" is not the constant "/a/")
+func findParamLen(s string, segment *routeSegment, slashOptional bool) int {
 	if segment.IsLast {
 		return findParamLenForLastSegment(s, segment)
 	}
@@ -558,13 +562,13 @@ func findParamLen(s string, segment *routeSegment) int {
 	} else if segment.IsGreedy {
 		// Search the parameters until the next constant part
 		// special logic for greedy params
-		searchCount := strings.Count(s, segment.ComparePart)
+		searchCount := countComparePart(s, segment.ComparePart, slashOptional)
 		if searchCount > 1 {
-			return findGreedyParamLen(s, searchCount, segment)
+			return findGreedyParamLen(s, searchCount, segment, slashOptional)
 		}
 	}
 
-	if len(segment.ComparePart) == 1 {
+	if len(segment.ComparePart) == 1 && !slashOptional {
 		if constPosition := strings.IndexByte(s, segment.ComparePart[0]); constPosition != -1 {
 			// same rule as below: a parameter that is not greedy never spans a slash
 			if !segment.IsGreedy && strings.IndexByte(s[:constPosition], slashDelimiter) != -1 {
@@ -572,7 +576,7 @@ func findParamLen(s string, segment *routeSegment) int {
 			}
 			return constPosition
 		}
-	} else if constPosition := strings.Index(s, segment.ComparePart); constPosition != -1 {
+	} else if constPosition := indexComparePart(s, segment.ComparePart, slashOptional); constPosition != -1 {
 		// if the compare part was found, but contains a slash although this part is not greedy, then it must not match
 		// example: /api/:param/fixedEnd -> path: /api/123/456/fixedEnd = no match , /api/123/fixedEnd = match
 		if !segment.IsGreedy && strings.IndexByte(s[:constPosition], slashDelimiter) != -1 {
@@ -596,19 +600,67 @@ func findParamLenForLastSegment(s string, seg *routeSegment) int {
 }
 
 // findGreedyParamLen get the length of the parameter for greedy segments from right to left
-func findGreedyParamLen(s string, searchCount int, segment *routeSegment) int {
+func findGreedyParamLen(s string, searchCount int, segment *routeSegment, slashOptional bool) int {
 	// check all from right to left segments
+	end := len(s)
 	for i := segment.PartCount; i > 0 && searchCount > 0; i-- {
 		searchCount--
 
-		constPosition := strings.LastIndex(s, segment.ComparePart)
+		constPosition := lastIndexComparePart(s, end, segment.ComparePart, slashOptional)
 		if constPosition == -1 {
 			break
 		}
-		s = s[:constPosition]
+		end = constPosition
 	}
 
-	return len(s)
+	return end
+}
+
+// isComparePartAt reports whether the compare part found at position i of s stands for the following constant
+func isComparePartAt(s string, i int, part string, slashOptional bool) bool {
+	end := i + len(part)
+	return !slashOptional || end == len(s) || s[end] == slashDelimiter
+}
+
+// indexComparePart is strings.Index for a compare part
+func indexComparePart(s, part string, slashOptional bool) int {
+	for from := 0; from < len(s); from++ {
+		i := strings.Index(s[from:], part)
+		if i == -1 {
+			return -1
+		}
+		from += i
+		if isComparePartAt(s, from, part, slashOptional) {
+			return from
+		}
+	}
+	return -1
+}
+
+// lastIndexComparePart is strings.LastIndex for a compare part in s[:end]
+func lastIndexComparePart(s string, end int, part string, slashOptional bool) int {
+	for end > 0 {
+		i := strings.LastIndex(s[:end], part)
+		if i == -1 || isComparePartAt(s, i, part, slashOptional) {
+			return i
+		}
+		end = i + len(part) - 1
+	}
+	return -1
+}
+
+// countComparePart is strings.Count for a compare part
+func countComparePart(s, part string, slashOptional bool) int {
+	if !slashOptional {
+		return strings.Count(s, part)
+	}
+	n := 0
+	for end := len(s); end > 0; n++ {
+		if end = lastIndexComparePart(s, end, part, slashOptional); end == -1 {
+			break
+		}
+	}
+	return n
 }
 
 // GetTrimmedParam trims the ':' & '?' from a string
